@@ -14,11 +14,11 @@ CHECKS = {
          "deletions shifting indices, attribute values and item constraints over constants of all sizes, user/glyph attributes of own and other slots, + - * / min max comparisons && || ! ?:, rules under "
          "if / elseif / else feature tests) the code in the font is decompiled and must equal, after folding, the tree denoted by the source expression with @n turned into (input index of item n) - "
          "(reference frame of the item: own input index, for an inserted item that of the preceding input item); the rule constraint must be the conjunction of the enclosing feature tests and the item "
-         "tests. Tie T2: Grc.Eng.shape, a reference interpreter written from the language description (passes in order; left-to-right scan; first matching rule in precedence order with leading "
+         "tests; the value the action returns (where the scan goes on) must equal #kept(items before ^) - #kept(items the action handled). Tie T2: Grc.Eng.shape, a reference interpreter written from the language description (passes in order; left-to-right scan; first matching rule in precedence order with leading "
          "context and item constraints and feature tests; substitution by class correspondence with selectors, insertion, deletion, @n copies, user attributes in 32-bit arithmetic / 16-bit storage, "
          "associations, ^, positioning passes assigning advance.x / shift.x / shift.y / kern.x from expressions that read slot attributes and the advancewidth metric, attachment of marks to bases and to other marks with the engine's cluster positioning), is run on the IR and "
          "compared with libgraphite2 on the compiled font: glyph sequence, user attributes, associations, positions (x, y, advance), for about 2200 (thorough: 45000) generated texts "
-         "over eight program families and feature settings; one-rule programs additionally compare every user attribute with a direct evaluation."),
+         "over nine program families (one with ^ anywhere and deletions as first item) and feature settings; one-rule programs additionally compare every user attribute with a direct evaluation."),
    note=TB + "The interpreter is a specification executed against the real engine, not a proved object (one sanity theorem: a pass without rules is the identity). NOT modelled: justification, collision, right-to-left, advance.y / measure attributes, line-break items, the MaxRuleLoop counter (runs where a rule application does not advance are reported as outside the fragment and skipped), associations of items deleted without an explicit association (compiler policy). One point follows libgraphite2 rather than the GDL text: @k reads an item's slot as matched if the rule changes its glyph, and in its current state if the rule only sets attributes on it. libgraphite2 stores user attributes in 16 bits.",
    design="4/C01"),
  "C03": dict(
